@@ -38,7 +38,7 @@ PROPS = {
         "min_runs": {"quick": 40, "thorough": 1000},
     },
     "C05": {
-        "harnesses": {"c05_streams": 0.4, "c05_checkpoint": 0.45, "c05_streams.guard": 0.15},
+        "harnesses": {"c05_streams": 0.35, "c05_checkpoint": 0.4, "c05_streams.guard": 0.13, "c05_meta": 0.12},
         "budget_s": {"quick": 50, "thorough": 900},
         "min_runs": {"quick": 200, "thorough": 5000},
     },
@@ -652,5 +652,21 @@ def write_evidence(pid, tier, seed, results, reported, known_printed, det, wall,
     json.dump(ev, open(os.path.join(EVID, pid + ".json"), "w"), indent=1)
 
 
+def _scratch_cleanup():
+    # c05_meta keeps its named files in a private tmpfs directory per worker process; a worker that ends at a
+    # violation exits without removing it
+    import glob
+    for d in glob.glob("/dev/shm/feat3sim_c05_*") + glob.glob(os.path.join(os.environ.get("TMPDIR", "/tmp"), "feat3sim_c05_*")):
+        pid = d.rsplit("_", 1)[-1]
+        if pid.isdigit() and os.path.exists("/proc/" + pid):
+            continue   # a worker of another check that is still running
+        shutil.rmtree(d, ignore_errors=True)
+
+
 if __name__ == "__main__":
-    sys.exit(main())
+    rc = 2
+    try:
+        rc = main()
+    finally:
+        _scratch_cleanup()
+    sys.exit(rc)
